@@ -3,9 +3,14 @@ package main
 import (
 	"encoding/json"
 	"fmt"
+	"os"
 	"path/filepath"
+	"regexp"
+	"runtime"
 	"sort"
+	"strconv"
 	"strings"
+	"sync"
 	"time"
 )
 
@@ -342,8 +347,22 @@ func checkC08(c *Ctx) {
 		c.addInt("distinct_nontrivial", n)
 		c.cov("accepted_programs", acc)
 	}
+	tcfg := "FamText_quick.cfg"
+	if c.Tier == "thorough" {
+		tcfg = "FamText_thorough.cfg"
+	}
+	tout := filepath.Join(c.Work, "text.ndjson")
+	if res := c.runTLC(TLCJob{Module: "FamText", Cfg: tcfg, OutFile: tout, Timeout: 60 * time.Minute}); res.Err == "" {
+		n, rej := c.replayTextFile(tout)
+		c.addInt("traces_validated_against_impl", n)
+		c.addInt("evaluations", n)
+		c.addInt("distinct_nontrivial", rej)
+	}
+	ns := c.replaySchemata()
+	c.addInt("traces_validated_against_impl", ns)
+	c.addInt("evaluations", ns)
 	c.cov("exhaustive", true)
-	c.cov("rule", "every viable prefix of <= MaxLen tokens over the 38-token alphabet of FamPrefix (one TLC state per prefix), each replayed as it stands (accepted with its tree, or rejected at end of input) and extended by every one of the 38 tokens that does not keep it viable (rejected at that token); one token per line, `var` declarations on one line, sequences containing `, }` skipped (outside the domain)")
+	c.cov("rule", "(character level) every text of <= MaxFrag fragments of FamText judged by BornoLex then BornoGrammar, a sample of the rejected ones also through the executable behind a printing statement (nothing may run, exit 65); (schemata) nesting depth 1..10000 of brackets, blocks, unary / call / index / property / else-if / assignment chains, 254..300 parameters, every reserved name as variable, function, parameter, property and assignment target, assignable and non-assignable left sides; (token level) every viable prefix of <= MaxLen tokens over the 38-token alphabet of FamPrefix (one TLC state per prefix), each replayed as it stands (accepted with its tree, or rejected at end of input) and extended by every one of the 38 tokens that does not keep it viable (rejected at that token); one token per line, `var` declarations on one line, sequences containing `, }` skipped (outside the domain)")
 	c.Ev.Assumptions = []string{"the predictive recogniser BornoGrammar is the published grammar with the four readings of C08", "diagnostics are observed through the verif hook in utils.report"}
 }
 
@@ -482,4 +501,209 @@ func checkC01(c *Ctx) {
 
 func init() {
 	checks["C01"] = checkC01
+}
+
+type TextRec struct {
+	Text []int `json:"text"`
+	V    struct {
+		Accept bool `json:"accept"`
+		LexErr bool `json:"lexerr"`
+		Line   int  `json:"line"`
+		AtEq   bool `json:"ateq"`
+	} `json:"v"`
+}
+
+var reTrailingComma = regexp.MustCompile(`,\s*\}`)
+
+// replayTextFile: character-level accept / reject classification and the line of the first diagnostic.
+func (c *Ctx) replayTextFile(path string) (int64, int64) {
+	cases := make(chan *Case, 1024)
+	recs := map[int]*TextRec{}
+	varKw := keywordSpelling["var"]
+	var cliRejected []string
+	go func() {
+		id := 0
+		forEachLine(path, func(line []byte) error {
+			var rec TextRec
+			if err := json.Unmarshal(line, &rec); err != nil {
+				c.infra("bad text record: %v", err)
+				return nil
+			}
+			src := intsToString(rec.Text)
+			if (strings.Contains(src, varKw) && strings.Contains(src, "\n")) || reTrailingComma.MatchString(src) {
+				return nil // outside the domain of the accept/reject clause
+			}
+			id++
+			c.Pool.mu.Lock()
+			recs[id] = &rec
+			if !rec.V.Accept && (id+c.Seed)%97 == 0 && len(cliRejected) < 400 {
+				cliRejected = append(cliRejected, src)
+			}
+			c.Pool.mu.Unlock()
+			cases <- &Case{ID: id, Mode: "parse", Src: src}
+			return nil
+		})
+		close(cases)
+	}()
+	var n, rejected int64
+	err := c.Pool.Run(cases, func(cs *Case, r *Result) {
+		rec := recs[cs.ID]
+		delete(recs, cs.ID)
+		n++
+		nl := strings.Count(cs.Src, "\n") + 1
+		cls := "accept"
+		if rec.V.LexErr {
+			cls = "lexical-error"
+		} else if !rec.V.Accept {
+			cls = "syntax-error"
+		}
+		rep := func(what, detail string) {
+			c.violation(c.Prop+"|text|"+cls+"|"+what, strconv.Quote(cs.Src), map[string]interface{}{"mode": "parse", "src": cs.Src, "expected": rec.V, "detail": detail,
+				"observed": map[string]interface{}{"events": r.Events, "panic": r.Panic, "crash": r.Crash}})
+		}
+		if n%20000 == 1 {
+			c.sample(map[string]interface{}{"family": "text", "text": cs.Src, "expected": rec.V})
+		}
+		if r.Crash != "" || r.Panic != "" {
+			rep("abnormal-termination", clip(r.Crash+r.Panic, 300))
+			return
+		}
+		dl := staticDiagLines(r)
+		if rec.V.Accept {
+			if len(dl) > 0 || r.HadErr {
+				rep("rejected-valid", fmt.Sprintf("diagnostics at lines %v", dl))
+			}
+			return
+		}
+		rejected++
+		if len(dl) == 0 || !r.HadErr {
+			rep("accepted-invalid", "no diagnostic")
+			return
+		}
+		if dl[0] < 1 || dl[0] > nl {
+			rep("diag-line-outside-text", fmt.Sprintf("line %d of %d", dl[0], nl))
+			return
+		}
+		if dl[0] != rec.V.Line && !(rec.V.AtEq && dl[0] >= rec.V.Line) {
+			rep("diag-line", fmt.Sprintf("first diagnostic at line %d, expected %d", dl[0], rec.V.Line))
+		}
+	})
+	if err != nil {
+		c.infra("%v", err)
+	}
+	// "no part of a rejected text is executed - not even statements that precede the error": through the executable
+	pre, _ := Render([]string{"K:print", "S:ran", ";"}, nil)
+	var wg sync.WaitGroup
+	var mu sync.Mutex
+	sem := make(chan struct{}, runtime.NumCPU())
+	for i, src := range cliRejected {
+		wg.Add(1)
+		sem <- struct{}{}
+		go func(i int, src string) {
+			defer wg.Done()
+			defer func() { <-sem }()
+			f := filepath.Join(c.Work, fmt.Sprintf("rej_%d.bn", i))
+			os.WriteFile(f, []byte(pre+src), 0644)
+			r := c.runCLI([]string{f}, "", 10*time.Second)
+			os.Remove(f)
+			what := ""
+			switch {
+			case r.Killed:
+				what = "cli:no-termination"
+			case r.Out != "":
+				what = "cli:rejected-text-executed"
+			case r.Exit != 65:
+				what = fmt.Sprintf("cli:exit:65->%d", r.Exit)
+			case !strings.Contains(r.Err, "[line "):
+				what = "cli:no-diagnostic-on-stderr"
+			}
+			if what != "" {
+				mu.Lock()
+				c.violation(c.Prop+"|text|rejected|"+what, strconv.Quote(src), map[string]interface{}{"mode": "cli", "src": pre + src, "detail": what,
+					"observed": map[string]interface{}{"out": r.Out, "err": clip(r.Err, 300), "exit": r.Exit}})
+				mu.Unlock()
+			}
+		}(i, src)
+	}
+	wg.Wait()
+	c.addInt("cli_runs", int64(len(cliRejected)))
+	return n, rejected
+}
+
+// schemata: nesting depth up to 10 000, parameter limits, reserved names, non-assignable left sides
+func (c *Ctx) replaySchemata() int64 {
+	type sc struct {
+		name, src string
+		accept    bool
+	}
+	var list []sc
+	rep := strings.Repeat
+	kw := func(k string) string { return keywordSpelling[k] }
+	for _, n := range []int{1, 10, 100, 1000, 10000} {
+		list = append(list,
+			sc{fmt.Sprintf("parens-%d", n), rep("(", n) + "1" + rep(")", n) + ";", true},
+			sc{fmt.Sprintf("brackets-%d", n), rep("[", n) + rep("]", n) + ";", true},
+			sc{fmt.Sprintf("blocks-%d", n), rep("{ ", n) + rep("} ", n), true},
+			sc{fmt.Sprintf("unary-%d", n), rep("- ", n) + "1;", true},
+			sc{fmt.Sprintf("calls-%d", n), "a" + rep("()", n) + ";", true},
+			sc{fmt.Sprintf("index-%d", n), "a" + rep("[0]", n) + ";", true},
+			sc{fmt.Sprintf("props-%d", n), "a" + rep(".k", n) + ";", true},
+			sc{fmt.Sprintf("ifs-%d", n), rep(kw("if")+" (a) ", n) + ";", false},
+			sc{fmt.Sprintf("if-else-chain-%d", n), rep(kw("if")+" (a) b; "+kw("else")+" ", n) + "c;", true},
+			sc{fmt.Sprintf("unclosed-parens-%d", n), rep("(", n) + "1;", false},
+			sc{fmt.Sprintf("binary-chain-%d", n), "1" + rep(" + 1", n) + ";", true},
+			sc{fmt.Sprintf("assign-chain-%d", n), rep("a = ", n) + "1;", true},
+		)
+	}
+	params := func(n int) string {
+		ps := make([]string, n)
+		for i := range ps {
+			ps[i] = fmt.Sprintf("p%d", i)
+		}
+		return kw("fun") + " f(" + strings.Join(ps, ", ") + ") { }"
+	}
+	list = append(list, sc{"params-254", params(254), true}, sc{"params-255", params(255), true}, sc{"params-256", params(256), false}, sc{"params-300", params(300), false})
+	names := make([]string, 0, len(builtinSpelling))
+	for k := range builtinSpelling {
+		names = append(names, k)
+	}
+	sort.Strings(names)
+	for _, k := range names {
+		s := builtinSpelling[k]
+		list = append(list, sc{"reserved-var-" + k, kw("var") + " " + s + " = 1;", false}, sc{"reserved-fun-" + k, kw("fun") + " " + s + "() { }", false},
+			sc{"reserved-second-var-" + k, kw("var") + " a = 1, " + s + ";", false},
+			sc{"reserved-param-" + k, kw("fun") + " f(" + s + ") { }", true}, sc{"reserved-assign-" + k, s + " = 1;", true}, sc{"reserved-property-" + k, "a." + s + ";", true})
+	}
+	for _, lhs := range []string{"1", "\"s\"", "(a)", "a + b", "f()", "-a", "[1]", "!a", "a == b", kw("true"), kw("nil"), "a.b()", "(a.b)", "{}"} {
+		list = append(list, sc{"assign-to:" + lhs, kw("print") + " " + lhs + " = 1;", false})
+	}
+	for _, lhs := range []string{"a", "a[0]", "a.b", "a[0].b", "a.b[0]", "f().k", "f()[0]", "a[b = 1]"} {
+		list = append(list, sc{"assign-to:" + lhs, lhs + " = 1;", true})
+	}
+	cases := make(chan *Case, 64)
+	go func() {
+		for i, s := range list {
+			cases <- &Case{ID: i, Mode: "parse", Src: s.src}
+		}
+		close(cases)
+	}()
+	var n int64
+	c.Pool.Run(cases, func(cs *Case, r *Result) {
+		s := list[cs.ID]
+		n++
+		what := ""
+		switch {
+		case r.Crash != "" || r.Panic != "":
+			what = "abnormal-termination"
+		case s.accept && (r.HadErr || len(staticDiagLines(r)) > 0):
+			what = "rejected-valid"
+		case !s.accept && !r.HadErr:
+			what = "accepted-invalid"
+		}
+		if what != "" {
+			c.violation(c.Prop+"|schema|"+strings.SplitN(s.name, "-", 2)[0]+"|"+what, s.name, map[string]interface{}{"mode": "parse", "src": clip(s.src, 400), "detail": what,
+				"observed": map[string]interface{}{"events": r.Events, "panic": clip(r.Panic, 300), "crash": clip(r.Crash, 300)}})
+		}
+	})
+	return n
 }
